@@ -359,6 +359,9 @@ def _extract_class(src, mod: Module, c: ast.ClassDef, menv: dict, done: dict) ->
                 elif isinstance(t, ast.Subscript) and isinstance(t.value, ast.Name):
                     remaps.append((t.value.id, getattr(t.slice, "value", None), t.value.id))
             continue
+        if isinstance(st, ast.FunctionDef) and st.name in ("tokenize", "begin", "push_state", "pop_state", "__init__", "__new__"):
+            raise AnalysisError(f"{c.name} overrides the runtime's {st.name}(): the text or the state handling is changed outside the "
+                                "rule table the lexer model is built from")
         if isinstance(st, ast.FunctionDef):
             pats = []
             other_deco = False
@@ -493,4 +496,17 @@ def check_sly_anchors(src: Source, anchors=SLY_LEX_ANCHORS, rel="sly/lex.py") ->
                 f"vendored sly changed: {rel}:{qual} no longer contains `{text}` ({why}); "
                 "the lexer model must be re-derived")
         n += 1
+    if rel == "sly/lex.py" and anchors is SLY_LEX_ANCHORS:
+        # the model describes ONE consumer of the input: the master regex.  A second way of advancing over the text
+        # (another regex matched against it, str.find/index/startswith on it) is outside the model.
+        tok = mod.get_method("Lexer", "tokenize")
+        consumers = []
+        for c in ast.walk(tok):
+            if isinstance(c, ast.Call) and isinstance(c.func, ast.Attribute) and c.func.attr in (
+                    "match", "search", "fullmatch", "finditer", "scanner", "find", "index", "startswith", "partition", "split"):
+                if any(isinstance(a_, ast.Name) and a_.id in ("text", "index") for a_ in c.args) or dotted(c.func.value) in ("text", "self.text"):
+                    consumers.append(norm(c))
+        if len(consumers) != 1:
+            raise AnalysisError(f"vendored sly changed: {rel}:Lexer.tokenize advances over the text in {len(consumers)} ways "
+                                f"({'; '.join(x[:50] for x in consumers)}); the lexer model knows the master regex only")
     return n
